@@ -254,6 +254,20 @@ def reformat_text(text: str, kind: str) -> str:
     raise AssertionError(kind)
 
 
+def _props(rspec: dict) -> list[dict]:
+    out = []
+
+    def walk(a):
+        if "op" in a:
+            walk(a["l"])
+            walk(a["r"])
+        else:
+            out.append(a)
+    walk(rspec["ant"])
+    out.extend(rspec["con"])
+    return out
+
+
 def rule_snap(r) -> tuple:
     return (r.antecedent.text, r.consequent.text, fx(r.weight), r.enabled, r.is_loaded(), id(r.antecedent.expression),
             tuple(id(c) for c in r.consequent.conclusions))
@@ -538,9 +552,22 @@ class C16(Sim):
                 names = sorted(S.ast_vars(rspec["ant"]) | {c["var"] for c in rspec["con"]})
                 old_name = names[op["pick"] % len(names)]
                 var = next(v_ for v_ in E.variables if v_.name == old_name)
+                if sum(1 for v_ in E.variables if v_.name == old_name) != 1:
+                    continue
                 others = all_rule_snaps(skip=(bi, ri))
-                var.name = old_name + "_renamed"
-                st.hit("faults.engine_variable_renamed")
+                target = var
+                if op["pick"] % 3 == 1:
+                    # rename a *term* the rule mentions instead (the term name in the text becomes unknown)
+                    used = [p_["term"] for p_ in _props(rspec) if p_["var"] == old_name and p_["term"] is not None]
+                    # (shipped examples contain variables with several terms of the same name: renaming one of those
+                    # leaves the name known, so only uniquely named terms qualify)
+                    cands = [t_ for t_ in var.terms if t_.name in used and sum(1 for u_ in var.terms if u_.name == t_.name) == 1]
+                    if cands:
+                        target = cands[(op["pick"] // 3) % len(cands)]
+                        old_name = target.name
+                target.name = old_name + "_renamed"
+                var = target
+                st.hit("faults.engine_term_renamed" if target is not next((v_ for v_ in E.variables if v_ is target), None) else "faults.engine_variable_renamed")
                 exc = None
                 try:
                     rule.load(E)
